@@ -461,6 +461,42 @@ def qubit_finder(root):
             "Definition contains_qubit (t : gty) : bool := ty_visit t.\n")
     return text, {"qubit_finder_struct_fields": has_struct}
 
+def functiontype_eq_fields(root):
+    """FunctionType is a generated-__eq__ dataclass: the fields that take part in equality (compare != False).
+    Fails closed on a hand-written __eq__/__hash__ in FunctionType or its bases, or eq=False."""
+    t = parse_file(root / "tys/ty.py")
+    cls = find_class(t, "FunctionType")
+    deco = [U(d) for d in cls.decorator_list]
+    if deco != ["dataclass(frozen=True, init=False)"]:
+        raise TranslatorError(f"FunctionType decorators changed: {deco}")
+    for cname in ("FunctionType", "ParametrizedTypeBase", "TypeBase"):
+        c = find_class(t, cname)
+        for m in c.body:
+            if isinstance(m, ast.FunctionDef) and m.name in ("__eq__", "__hash__", "__ne__"):
+                raise TranslatorError(f"{cname} defines {m.name}: function-type equality is no longer the dataclass one")
+    out = []
+    for n in cls.body:
+        if isinstance(n, ast.AnnAssign) and isinstance(n.target, ast.Name):
+            cmp_ = True
+            v = n.value
+            if v is not None:
+                if not (isinstance(v, ast.Call) and U(v.func) == "field"):
+                    raise TranslatorError(f"FunctionType.{n.target.id}: default is not a field(...) call: {U(v)}")
+                for k in v.keywords:
+                    if k.arg == "compare":
+                        if not isinstance(k.value, ast.Constant) or not isinstance(k.value.value, bool):
+                            raise TranslatorError(f"FunctionType.{n.target.id}: compare= is not a literal")
+                        cmp_ = k.value.value
+                    elif k.arg is None:
+                        raise TranslatorError(f"FunctionType.{n.target.id}: field(**...)")
+            if cmp_:
+                out.append(n.target.id)
+    init = _method(cls, "__init__")
+    if init is None or "object.__setattr__(self, 'unitary_flags', unitary_flags)" not in body_src(init):
+        raise TranslatorError("FunctionType.__init__ no longer stores unitary_flags")
+    return out
+
+
 def coq_list(xs):
     return "[" + "; ".join(xs) + "]"
 
@@ -578,6 +614,9 @@ def translate(repo):
     o.append(f'Definition metadata_key : string := "{key}"%string.')
     o.append("Definition metadata_value (flags : Z) : Z := flags.")
     o.append("Definition metadata_call_sites : list (string * string) := " + coq_list([f'("{a}"%string, "{b}"%string)' for a, b in sites]) + ".")
+    eqf = functiontype_eq_fields(root)
+    o.append("\n(* tys/ty.py class FunctionType (dataclass-generated __eq__): the fields that take part in equality *)")
+    o.append(f"Definition functiontype_eq_fields : list string := {coq_strs(eqf)}.")
     qtext, qinfo = qubit_finder(root)
     o.append("")
     o.append(qtext)
